@@ -9,6 +9,14 @@ type ReplayFn = fn(&str, serde_json::Value) -> (Option<Failure>, u32, u32);
 
 fn registry() -> Vec<(&'static str, MainFn, ReplayFn)> {
     vec![
+        ("C18", props::c18::main as MainFn, props::c18::replay as ReplayFn),
+        ("C13", props::c13::main as MainFn, props::c13::replay as ReplayFn),
+        ("C20", props::c20::main as MainFn, props::c20::replay as ReplayFn),
+        ("C12", props::c12::main as MainFn, props::c12::replay as ReplayFn),
+        ("C19", props::c19::main as MainFn, props::c19::replay as ReplayFn),
+        ("C16", props::c16::main as MainFn, props::c16::replay as ReplayFn),
+        ("C14", props::c14::main as MainFn, props::c14::replay as ReplayFn),
+        ("C15", props::c15::main as MainFn, props::c15::replay as ReplayFn),
         ("C01", props::c01::main as MainFn, props::c01::replay as ReplayFn),
         ("C02", props::c02::main as MainFn, props::c02::replay as ReplayFn),
         ("C03", props::c03::main as MainFn, props::c03::replay as ReplayFn),
